@@ -275,6 +275,21 @@ Proof.
   injection H as -> ->. reflexivity.
 Qed.
 
+(* ===== the verdict on any lexically well-formed literal, in one statement ===== *)
+Theorem parse_str_decides : forall cf s rst off pk d,
+  str_ok s = true ->
+  match str_text s with
+  | Some b => parse_str (mkEnv RSlice TEof cf) (mkSt (flat_map render_piece s ++ 34 :: rst) off pk d)
+              = Ok (b, forallb (fun p => match p with PRaw _ => true | _ => false end) s,
+                    mkSt rst (off + length (flat_map render_piece s) + 1) false d)
+  | None => exists c i, parse_str (mkEnv RSlice TEof cf) (mkSt (flat_map render_piece s ++ 34 :: rst) off pk d) = Err c i
+  end.
+Proof.
+  intros cf s rst o p d Hok. destruct (str_text s) as [b|] eqn:Ht.
+  - apply parse_str_complete_strong; assumption.
+  - apply parse_str_rejects; assumption.
+Qed.
+
 Print Assumptions escape_shape.
 Print Assumptions escape_concat_spec.
 Print Assumptions roundtrip_slice.
